@@ -128,6 +128,11 @@ func must(err error) {
 	}
 }
 
+// knobArgs: calls whose large integer literal arguments are queue capacities (file -> callee names)
+var knobArgs = map[string]map[string]bool{
+	"aggregator/aggregator.go": {"NewMocked": true},
+}
+
 type rewriter struct {
 	rel  string
 	fset *token.FileSet
@@ -189,6 +194,34 @@ func instrument(rel string, src []byte, keepFuncs []string) []byte {
 		stats["knobs"]++
 		return true
 	})
+
+	// ... and the queue sizes that are handed down as a literal argument (aggregator.New -> NewMocked(..., 2000, ...))
+	if callees := knobArgs[rel]; callees != nil {
+		ast.Inspect(f, func(n ast.Node) bool {
+			ce, ok := n.(*ast.CallExpr)
+			if !ok {
+				return true
+			}
+			id, ok := ce.Fun.(*ast.Ident)
+			if !ok || !callees[id.Name] {
+				return true
+			}
+			for i, a := range ce.Args {
+				lit, ok := a.(*ast.BasicLit)
+				if !ok || lit.Kind != token.INT {
+					continue
+				}
+				if v, err := strconv.Atoi(lit.Value); err != nil || v < 1000 {
+					continue
+				}
+				site := fmt.Sprintf("%s:%d", rel, fset.Position(ce.Pos()).Line)
+				ce.Args[i] = &ast.CallExpr{Fun: &ast.SelectorExpr{X: ast.NewIdent("simrt"), Sel: ast.NewIdent("Knob")},
+					Args: []ast.Expr{&ast.BasicLit{Kind: token.STRING, Value: strconv.Quote(site)}, lit}}
+				stats["knobs"]++
+			}
+			return true
+		})
+	}
 
 	// collect every function body first; statement recursion never enters expressions,
 	// so each body is rewritten exactly once
